@@ -1,9 +1,9 @@
 #!/bin/bash
-# run every registered check once (tier = $1, default quick); prints one line per property
+# run every registered check once (tier = $1, default quick; PROPS="C01 C05" restricts the list); prints one line per property
 tier=${1:-quick}
 cd "$(dirname "$0")/.."
 rc=0
-for p in C01 C02 C03 C04 C05 C06 C07 C08 C09 C10 C11 C12 C13 C14 C15 C16 C17 C18 C19 C20; do
+for p in ${PROPS:-C01 C02 C03 C04 C05 C06 C07 C08 C09 C10 C11 C12 C13 C14 C15 C16 C17 C18 C19 C20}; do
   out=$(bin/check $p $tier 2>/dev/null); e=$?
   echo "$p exit=$e $(echo "$out" | tail -1 | cut -c1-160)"
   [ $e -ne 0 ] && { rc=1; echo "$out" | grep "VIOLATION\|signature\|HARNESS" | head -5; }
